@@ -179,8 +179,17 @@ pub fn property() -> Property {
             required: &[
                 "refused_push_seen", "pop_seen", "pop_after_special", "outcome_op", "pop_clears_outcome", "refused_null", "refused_garbage",
                 "uci_list_bad_token", "via_san_str", "via_uci_value", "via_san_value", "eq_one_move_differs", "eq_start_differs", "clone",
-                "refused_king_left_attacked", "pop_on_empty",
+                "refused_king_left_attacked", "pop_on_empty", "null_round_trip",
             ],
+            regressions: &[],
+            exhaustive: false,
+        },
+        SubCheck {
+            name: "long_chain",
+            driver: Driver::Custom { run: long_chain_run },
+            check: long_chain_check,
+            configs: Configs::Both,
+            required: &["long_chain"],
             regressions: &[],
             exhaustive: false,
         },
@@ -194,4 +203,8 @@ pub fn property() -> Property {
             exhaustive: false,
         }],
     }
+}
+
+fn long_chain_run(ctx: &RunCtx, stats: &mut Stats, rep: &mut Reporter) {
+    long_chain_driver("C13")(ctx, stats, rep)
 }
